@@ -113,18 +113,25 @@ def gen_ddefault(r, dt):
     return {"k": "str", "v": m["v"]} if m["k"] == "s" else {"k": "int", "v": m["v"]}
 
 
-def gen_dir(r, nparams=None):
+def gen_dir(r, nparams=None, sparse=None):
+    """`sparse` (None | 0.0 | 0.5): a sparsely / un-documented interface — no interface doc, every parameter (and the return entry) has its
+    `doc` key with that probability only (what `cdd.class_.parse.class_` returns for an undocumented class)"""
     n = r.randint(0, 5) if nparams is None else nparams
     names = r.sample(NAMES, n)
     params = []
     for nm in names:
         dt = gen_dtyp(r)
-        params.append({"name": nm, "typ": dt, "doc": r.choice(DOCS), "default": gen_ddefault(r, dt)})
+        p = {"name": nm, "typ": dt, "doc": r.choice(DOCS), "default": gen_ddefault(r, dt)}
+        if sparse is not None and not (r.random() < sparse):
+            p.update(doc="", nodoc=True)  # no `doc` key in the IR handed to the emitters
+        params.append(p)
     ret = None
-    if r.random() < 0.4:
+    if r.random() < (0.4 if sparse is None else 0.5):
         ret = {"typ": gen_dtyp(r), "doc": r.choice([d for d in DOCS if d])}
-    return {"name": r.choice(["F", "Config", "train_model"]), "doc": r.choice(["Summary line.", "Summary line.\n\nLonger description here.", "Do it"]),
-            "params": params, "returns": ret}
+        if sparse is not None and not (r.random() < sparse):
+            ret.update(doc="", nodoc=True)
+    doc = r.choice(["Summary line.", "Summary line.\n\nLonger description here.", "Do it"]) if sparse is None else ""
+    return {"name": r.choice(["F", "Config", "train_model"]), "doc": doc, "params": params, "returns": ret}
 
 
 def render_litm(m):
@@ -181,13 +188,17 @@ def dir_to_ir(d):
     """the cdd IR (JSON-safe: params as a list of pairs)"""
     ps = []
     for p in d["params"]:
-        q = {"typ": render_typ(p["typ"]), "doc": p["doc"]}
+        q = {"typ": render_typ(p["typ"])}
+        if not p.get("nodoc"):
+            q["doc"] = p["doc"]
         if p["default"] is not None:
             q["default"] = dd_py(p["default"])
         ps.append([p["name"], q])
     ret = None
     if d["returns"] is not None:
-        ret = {"typ": render_typ(d["returns"]["typ"]), "doc": d["returns"]["doc"]}
+        ret = {"typ": render_typ(d["returns"]["typ"])}
+        if not d["returns"].get("nodoc"):
+            ret["doc"] = d["returns"]["doc"]
     return {"name": d["name"], "doc": d["doc"], "type": "static", "params": ps, "returns": ret}
 
 
